@@ -29,7 +29,9 @@ RULE = ("cases = (recovery mechanism, family, destination address, destination p
         "address, IPv4-mapped/compatible forms, ports whose two bytes differ when swapped, error returns of "
         "getsockopt/getpeername/the pf helper, malformed kernel byte strings and malformed CONNECT/UDP/pf "
         "texts; a case is non-trivial when it reached the server's connect/sendto, took an error branch or "
-        "hit the self-address guard; distinct = distinct canonical model-input line(s)")
+        "hit the self-address guard (listener bound to wildcard / loopback / LAN address x dialled local address); "
+        "UDP also as sequences of 2-5 datagrams from 1-3 sources where one source addresses several destinations "
+        "within one association; distinct = distinct canonical model-input line(s)")
 MANIFEST = dict(
     level_text=("Machine-checked Lean 4 theorems over a statement-by-statement model of original_dst, the tproxy/ipfw "
                 "cmsg decoding, the pf QUERY_PF_NAT dialogue, the CONNECT / UDP header encoders of the client, the "
@@ -115,14 +117,23 @@ class FakeSock:
         pass
 
 
+BIND_ADDRS = {'wild': ('0.0.0.0', '::'), 'loop': ('127.0.0.1', '::1'), 'lan': ('192.168.7.5', 'fd00::5')}
+
+
 class FakeListener:
-    def __init__(self, sock=None, src=('192.0.2.9', 40000)):
+    """The proxy's listening socket: bound to `bound` (wildcard, loopback or a LAN address)."""
+
+    def __init__(self, sock=None, src=('192.0.2.9', 40000), bound=None):
         self.sock = sock
         self.src = src
         self.family = sock.family if sock is not None else AF4
+        self.bound = bound
 
     def accept(self):
         return self.sock, self.src
+
+    def getsockname(self):
+        return self.bound
 
 
 class FakeUdpListener:
@@ -169,7 +180,11 @@ class Env:
         self.patch(ssnet, 'set_non_blocking_io', lambda fd: None)
         self.islocal_script = None
         self.islocal_calls = []
-        self.patch(client, 'islocal', self._islocal)
+        # islocal() itself is real; its bind() probe (the OS boundary) is scripted
+        fake_socket_mod = types.ModuleType('socket')
+        fake_socket_mod.__dict__.update(socket.__dict__)
+        fake_socket_mod.socket = self._probe_socket
+        self.patch(helpers, 'socket', fake_socket_mod)
         self.connects = []
         self.patch(ssnet, 'connect_dst', self._connect_dst)
         self.udp_sends = []
@@ -204,14 +219,22 @@ class Env:
         self.saved = []
 
     # -- fakes
-    def _islocal(self, ip, family):
-        self.islocal_calls.append((ip, family))
-        s = self.islocal_script
-        if s == 'y':
-            return True
-        if s == 'n':
-            return False
-        raise OSError(errno.EACCES, 'scripted islocal failure')
+    def _probe_socket(self, family=socket.AF_INET, *a, **kw):
+        env = self
+
+        class Probe:
+            def bind(self_inner, addr):
+                env.islocal_calls.append((addr[0], family))
+                s = env.islocal_script
+                if s == 'y':
+                    return
+                if s == 'n':
+                    raise OSError(errno.EADDRNOTAVAIL, 'Cannot assign requested address')
+                raise OSError(errno.EACCES, 'scripted bind failure')
+
+            def close(self_inner):
+                pass
+        return Probe()
 
     def _connect_dst(self, family, ip, port):
         self.connects.append((int(family), ip, port))
@@ -546,7 +569,7 @@ def stream_lib(ctx, env, logs):
 
 
 def tcp_case(env, method_name, fam, addr, port, *, lport, islocal, chan='auto', fault=None, lay='F',
-             flow_scope=False, src=None):
+             flow_scope=False, src=None, bind='loop'):
     """One diverted TCP connection through the real client and server code.
     Returns (ins, outs, info) where info has what the oracle needs."""
     client = env.client
@@ -614,7 +637,9 @@ def tcp_case(env, method_name, fam, addr, port, *, lport, islocal, chan='auto', 
     env.islocal_calls = []
     handlers = []
     try:
-        client.onaccept_tcp(FakeListener(sock, src), method, mux, handlers)
+        bip = BIND_ADDRS[bind][0 if fam == AF4 else 1]
+        bound = (bip, lport) if fam == AF4 else (bip, lport, 0, 0)
+        client.onaccept_tcp(FakeListener(sock, src, bound), method, mux, handlers)
     except Exception as e:  # noqa
         info['exc'] = e
     finally:
@@ -764,12 +789,19 @@ def run_tcp(ctx, env, logs, case):
     addr = common.unhex(case['addr'])
     ins, outs, info = tcp_case(env, case['method'], case['family'], addr, case['port'], lport=case['lport'],
                                islocal=case['islocal'], chan=case.get('chan', 'auto'), fault=case.get('fault'),
-                               lay=case.get('lay', 'F'))
+                               lay=case.get('lay', 'F'), bind=case.get('bind', 'loop'))
     lg = Log('tcp-' + case['method'] + ('-' + case['fault'] if case.get('fault') else ''))
     lg.ins, lg.outs = ins, outs
     logs.append(lg)
     fault = case.get('fault')
     fallback = fault in ('enoprotoopt', 'peer-einval', 'nat-miss')
+    ports_equal = fallback or case['method'] in ('tproxy', 'ipfw') or case['port'] == case['lport']
+    exc_scripted = fault == 'peer-other' or (case['islocal'] == 'r' and ports_equal)
+    if info['exc'] is not None and not exc_scripted:
+        ctx.violation('C05:tcp:unexpected-exception', case=case,
+                      expected='the connection is forwarded (one CONNECT) or dropped (close)',
+                      observed=repr(info['exc']))
+        return info
     if fallback:
         # the recovered destination is the proxy's own socket name: the property's second sentence
         is_self = case['islocal'] == 'y'
@@ -791,6 +823,23 @@ def stream_tcp(ctx, env, logs):
     n = ctx.scale(2500, 100000)
     v4 = v4_pool(rng, 200)
     v6 = v6_pool(rng, 1, 100)
+    # connections to the proxy's own port on a local address, for every way the listener can be bound:
+    # expected outcome is always "dropped, no CONNECT"
+    local4 = [bytes([127, 0, 0, 1]), bytes([192, 168, 7, 5]), bytes([10, 0, 0, 1])]
+    local6 = [socket.inet_pton(AF6, a) for a in ('::1', 'fd00::5', 'fe80::1')]
+    for method in ('nat', 'pf', 'tproxy', 'ipfw'):
+        for fam in (AF4, AF6):
+            if method == 'ipfw' and fam == AF6:
+                continue
+            for bind in ('wild', 'loop', 'lan'):
+                for addr in (local4 if fam == AF4 else local6):
+                    lport = rng.choice([12300, 12299, 1, 65535])
+                    case = dict(stream='tcp', method=method, family=fam, addr=hexb(addr), port=lport, lport=lport,
+                                islocal='y', bind=bind, chan=rng.choice([1, 2, 300]))
+                    if method == 'pf':
+                        case['lay'] = rng.choice('FOD')
+                    run_tcp(ctx, env, logs, case)
+                    ctx.hist('tcp:self:%s:%s' % (method, bind))
     for i in range(n):
         method = rng.choice(['nat', 'nat', 'tproxy', 'pf', 'pf', 'ipfw'])
         fam = AF4 if (method == 'ipfw' or rng.random() < 0.45) else AF6
@@ -801,7 +850,8 @@ def stream_tcp(ctx, env, logs):
         islocal = 'y' if rng.random() < 0.2 else 'n'
         if rng.random() < 0.03:
             islocal = 'r'
-        case = dict(stream='tcp', method=method, family=fam, addr=hexb(addr), port=port, lport=lport, islocal=islocal)
+        case = dict(stream='tcp', method=method, family=fam, addr=hexb(addr), port=port, lport=lport, islocal=islocal,
+                    bind=rng.choice(['wild', 'loop', 'lan']))
         if rng.random() < 0.5:
             case['chan'] = rng.choice([1, 2, 255, 256, 65535, rng.randrange(1, 65536)])
         elif rng.random() < 0.05:
@@ -894,6 +944,126 @@ def run_udp(ctx, env, logs, case):
                       expected='one sendto(%r, (%s, %d)) on a family-%d socket' % (data[:16], want_text, port, fam),
                       observed=dict(exc=repr(exc), sends=[(f, repr(d), hexb(p)[:40]) for f, d, p in sends]))
     return sends
+
+
+def next_free(mux, ssnet):
+    """What mux.next_channel() will return (same walk, no side effect)."""
+    c = mux.chani
+    for _ in range(1024):
+        c += 1
+        if c > ssnet.MAX_CHANNEL:
+            c = 1
+        if not mux.channels.get(c):
+            return c
+    return None
+
+
+def run_udp_seq(ctx, env, logs, case):
+    """Several datagrams through one client / one server: sources may repeat, and a repeated source
+    may address a different destination each time (one unconnected socket, several sendto())."""
+    client, ssnet = env.client, env.ssnet
+    fam = case['family']
+    srcs = [('192.0.2.%d' % (9 + i), 5353 + i) if fam == AF4 else ('2001:db8::%x' % (9 + i), 5353 + i, 0, 0)
+            for i in range(4)]
+    method = env.tproxy.Method('tproxy')
+    mux = env.client_mux(chani=case.get('chan', 1) - 1)
+    client.udp_by_src.clear()
+    env.reset_server()
+    env.udp_sends = []
+    lg = Log('udp-seq')
+    lg.add('udpnew', 'ok')
+    bad = None
+    try:
+        for i, d in enumerate(case['dgrams']):
+            addr, port, data = common.unhex(d['addr']), d['port'], common.unhex(d['data'])
+            cm = (int(socket.SOL_IP), 20, sockaddr_in(port, addr)) if fam == AF4 else (41, 74, sockaddr_in6(port, addr))
+            lst = FakeUdpListener(fam, (data, [cm], 0, srcs[d['src']]))
+            mux.outbuf[:] = []
+            fresh = next_free(mux, ssnet)
+            if d.get('nochan'):
+                fresh = None
+                mux.next_channel = lambda: None
+            exc = None
+            try:
+                client.onaccept_udp(lst, method, mux, [])
+            except Exception as e:  # noqa
+                exc = e
+            if d.get('nochan'):
+                del mux.next_channel
+            frames = frames_of(mux)
+            evs = []
+            for (c, cmd, payload) in frames:
+                if cmd == ssnet.CMD_UDP_OPEN:
+                    evs.append('open %d %s' % (c, hexb(payload)))
+                elif cmd == ssnet.CMD_UDP_DATA:
+                    evs.append('data %d %s' % (c, hexb(payload)))
+                else:
+                    evs.append('cmd%d %d %s' % (cmd, c, hexb(payload)))
+            if exc is not None:
+                evs.append(excname(exc))
+            lg.add('udpacc %d %d %s %d %s %s' % (fam, d['src'], text_tok(socket.inet_ntop(fam, addr)), port,
+                                                  hexb(data), 'N' if fresh is None else fresh),
+                   ' '.join(evs) or '-')
+            n0 = len(env.udp_sends)
+            for (c, cmd, payload) in frames:
+                try:
+                    env.smux.got_packet(c, cmd, payload)
+                except Exception as e:  # noqa
+                    exc = exc or e
+            new = env.udp_sends[n0:]
+            known = any(dd['src'] == d['src'] and not dd.get('dropped') for dd in case['dgrams'][:i])
+            if d.get('nochan') and not known:
+                d['dropped'] = True
+                ok = exc is None and not new
+                want = 'no free flow id: datagram dropped, nothing sent'
+            else:
+                ok = exc is None and len(new) == 1 and same_dest(new[0][0], new[0][1][0], new[0][1][1], addr, port) \
+                    and new[0][2] == data
+                want = 'one sendto(%r, (%s, %d)) on a family-%d socket' % (data[:16], socket.inet_ntop(fam, addr), port, fam)
+            if not ok and bad is None:
+                bad = dict(datagram=i, expected=want,
+                           observed=dict(exc=repr(exc), sends=[(f, repr(dst), hexb(p)[:40]) for f, dst, p in new]))
+    finally:
+        client.udp_by_src.clear()
+        env.reset_server()
+    for d in case['dgrams']:
+        d.pop('dropped', None)
+    logs.append(lg)
+    if bad is not None:
+        ctx.violation('C05:udpseq:destination-differs', case=case, expected=bad['expected'],
+                      observed=dict(datagram=bad['datagram'], **bad['observed']),
+                      note='datagram #%d of the sequence' % bad['datagram'])
+    return bad
+
+
+def stream_udp_seq(ctx, env, logs):
+    rng = ctx.rng
+    v4 = v4_pool(rng, 60)
+    v6 = v6_pool(rng, 1, 30)
+    for k in range(ctx.scale(400, 20000)):
+        fam = AF4 if rng.random() < 0.5 else AF6
+        pool = v4 if fam == AF4 else v6
+        nsrc = rng.choice([1, 1, 2, 3])
+        dgrams = []
+        base = (rng.choice(pool), port_of(rng))
+        for _ in range(rng.randrange(2, 6)):
+            r = rng.random()
+            if r < 0.25:
+                dst = base                                    # same destination again
+            elif r < 0.5:
+                dst = (base[0], port_of(rng))                 # same host, other port
+            elif r < 0.75:
+                dst = (rng.choice(pool), base[1])             # other host, same port
+            else:
+                dst = (rng.choice(pool), port_of(rng))
+            data = bytes(rng.choice(b',0123456789ab') for _ in range(rng.randrange(0, 8)))
+            d = dict(src=rng.randrange(nsrc), addr=hexb(dst[0]), port=dst[1], data=hexb(data))
+            if rng.random() < 0.04:
+                d['nochan'] = True
+            dgrams.append(d)
+        case = dict(stream='udpseq', family=fam, chan=rng.choice([1, 2, 256, 65534, 65535]), dgrams=dgrams)
+        run_udp_seq(ctx, env, logs, case)
+        ctx.hist('udpseq:%s:%dsrc' % ('v4' if fam == AF4 else 'v6', nsrc))
 
 
 def stream_udp(ctx, env, logs):
@@ -1067,19 +1237,20 @@ def run(ctx):
         stream_lib(ctx, env, logs)
         stream_tcp(ctx, env, logs)
         stream_udp(ctx, env, logs)
+        stream_udp_seq(ctx, env, logs)
         stream_server_malformed(ctx, env, logs)
         stream_pf_malformed(ctx, env, logs)
-        real_islocal_probe(ctx, env)
     finally:
         sys.stderr = old_err
         env.close()
+    real_islocal_probe(ctx, env)      # after close(): the unpatched helpers.islocal with real sockets
     seen = set()
     for lg in logs:
         ctx.count()
         ctx.hist(lg.kind)
         ctx.mark(lg.ins, lg.nontrivial)
         if lg.kind not in seen and len(seen) < 6 and lg.kind in ('odst6', 'tcp-nat', 'tcp-pf', 'udp-tproxy',
-                                                                  'tcp-tproxy', 'lib-pton'):
+                                                                  'udp-seq', 'lib-pton'):
             seen.add(lg.kind)
             ctx.sample(dict(kind=lg.kind, input=[l[:160] for l in lg.ins[:6]],
                             real_code_output=[l[:160] for l in lg.outs[:6]]))
@@ -1106,6 +1277,10 @@ def replay(ctx, rep):
         if case['stream'] == 'udp':
             sends = run_udp(ctx, env, logs, case)
             return bool(ctx.violations), 'sendto calls=%r' % (sends,)
+        if case['stream'] == 'udpseq':
+            bad = run_udp_seq(ctx, env, logs, case)
+            return bad is not None, ('datagram #%d: expected %s, observed %r' % (
+                bad['datagram'], bad['expected'], bad['observed'])) if bad else 'every datagram reached its own destination'
     finally:
         sys.stderr = old_err
         env.close()
